@@ -4,6 +4,7 @@ import CnbVerif.Props.C15
 #print axioms CnbVerif.C15.selected_from_workspace_root
 #print axioms CnbVerif.C15.contents_libcnb
 #print axioms CnbVerif.C15.contents_composite
+#print axioms CnbVerif.C15.composite_refs_resolved
 #print axioms CnbVerif.C15.stdout_exact
 #print axioms CnbVerif.C15.stale_independent
 #print axioms CnbVerif.C15.untouched_elsewhere
